@@ -235,6 +235,11 @@ func casesOf(t treeSpec) []Case {
 			continue // scheduler-dependent, see the header
 		}
 		mk(op, 0, 0)
+		for _, l := range t.Links {
+			if t.Backend == "os" && len(t.Links) == 1 && (l.Kind == LFileOut || l.Kind == LDirOut || l.Kind == LDirOutE || l.Kind == LLinkOut) {
+				out = append(out, Case{Backend: t.Backend, Parents: t.S.Parents, Kinds: t.S.Kinds, Links: t.Links, Op: op, OutsideRO: true})
+			}
+		}
 		if t.Full {
 			for ro := 1; ro <= n; ro++ {
 				mk(op, 0, ro)
